@@ -78,12 +78,16 @@ def check_definition(idx: int, members, t: Tally) -> List[Violation]:
             bad("int-like", f"E({v}) != {v} or wrong type", nclass(v))
         if copy.copy(m) is not m or copy.deepcopy(m) is not m:
             bad("copy-identity", f"copy/deepcopy of {cn} is a different object", nclass(v))
-        try:
-            p = pickle.loads(pickle.dumps(m))
-            if p.name != m.name or p.value != m.value or int(p) != v:
-                bad("pickle", f"pickle of {cn}={v} gives {p.name!r}={p.value!r}", nclass(v))
-        except Exception as e:
-            bad("pickle", f"pickle of {cn} raised {type(e).__name__}: {e}", nclass(v))
+        for proto in range(0, pickle.HIGHEST_PROTOCOL + 1):
+            try:
+                p = pickle.loads(pickle.dumps(m, protocol=proto))
+                t.inc("edges")
+                if p.name != m.name or p.value != m.value or int(p) != v or type(p) is not E:
+                    bad("pickle", f"pickle (protocol {proto}) of {cn}={v} gives {p.name!r}={p.value!r}", nclass(v))
+            except Exception as e:
+                bad("pickle", f"pickle (protocol {proto}) of {cn} raised {type(e).__name__}: {e}", nclass(v))
+        if hash(m) != hash(v) or m != E(v) or not (m == v):
+            bad("int-like", f"hash/== of {cn} inconsistent with {v}", nclass(v))
         if m not in E:
             bad("contains", f"{cn} not in E")
         for attr, val in (("name", "X"), ("value", 99), ("other", 1)):
@@ -123,6 +127,10 @@ def check_definition(idx: int, members, t: Tally) -> List[Violation]:
         its = list(E)
         if {int(x) for x in its} != set(canon_name) or any(x is not E(int(x)) for x in its):
             bad("iteration", f"iteration yields {its!r}")
+        if list(reversed(E)) != its[::-1] or any(x is not y for x, y in zip(reversed(E), its[::-1])):
+            bad("iteration", f"reversed() yields {list(reversed(E))!r}, iteration {its!r}")
+        if len(E) != len(members):
+            bad("members", f"len(E) = {len(E)} for {len(members)} declared names")
         try:
             mem["Z"] = 1
             bad("class-mutable", "__members__ is writable")
@@ -164,8 +172,12 @@ def check_definition(idx: int, members, t: Tally) -> List[Violation]:
                 bad("open", f"try_value({v}) -> {m!r} name={m.name!r} value={m.value!r}", nclass(v))
             if m in E:
                 bad("open", f"undefined {v} reported as contained in E", nclass(v))
-            if copy.deepcopy(m) != v or pickle.loads(pickle.dumps(m)) != v:
-                bad("open", f"copy/pickle of undefined {v} changes the number", nclass(v))
+            if copy.deepcopy(m) != v or copy.copy(m) != v:
+                bad("open", f"copy of undefined {v} changes the number", nclass(v))
+            for proto in range(0, pickle.HIGHEST_PROTOCOL + 1):
+                q = pickle.loads(pickle.dumps(m, protocol=proto))
+                if q != v or q.name is not None or type(q) is not E:
+                    bad("open", f"pickle (protocol {proto}) of undefined {v} gives {q!r}", nclass(v))
         except Exception as e:
             bad("open", f"try_value({v}) raised {type(e).__name__}: {e}", nclass(v))
         try:
